@@ -74,3 +74,8 @@ pub assume_specification<T: Ord>[ core::cmp::min ](a: T, b: T) -> (r: T)
         <T as vstd::std_specs::cmp::OrdSpec>::obeys_cmp_spec() ==>
             r == (if vstd::std_specs::cmp::OrdSpec::cmp_spec(&a, &b) == core::cmp::Ordering::Greater { b } else { a });
 }
+
+verus! {
+/// derived `Clone` of OpeningKey (no contract needed: the value is opaque)
+pub assume_specification[ <crate::commitment_scheme::OpeningKey as Clone>::clone ](k: &crate::commitment_scheme::OpeningKey) -> (r: crate::commitment_scheme::OpeningKey);
+}
